@@ -35,7 +35,7 @@ pub async fn get_request_addr(stream: &mut TcpStream) -> anyhow::Result<Address>
                         stream.read_exact(&mut buf[..end + 4]).await?;
                         break;
                     }
-                    if len == 0 || len == buf.len() {
+                    if len == 0 || len == buf.len() || read_closed(stream).await? {
                         bail!("invalid http CONNECT request");
                     }
                     tokio::time::sleep(Duration::from_millis(5)).await;
@@ -60,6 +60,11 @@ pub async fn get_request_addr(stream: &mut TcpStream) -> anyhow::Result<Address>
     .await?
 }
 
+/// has the peer closed its sending side (so that what `peek` shows is all there will ever be)
+async fn read_closed(stream: &TcpStream) -> std::io::Result<bool> {
+    Ok(stream.ready(tokio::io::Interest::READABLE).await?.is_read_closed())
+}
+
 /// A domain name is carried with a one-byte length prefix by every outbound protocol
 fn check_address(address: Address) -> anyhow::Result<Address> {
     if let Address::Domain(host, _) = &address {
@@ -72,7 +77,9 @@ fn check_address(address: Address) -> anyhow::Result<Address> {
 
 async fn recognize(stream: &mut TcpStream) -> Result<Proxy, anyhow::Error> {
     let mut buf = [0; 1];
-    stream.peek(&mut buf).await?;
+    if stream.peek(&mut buf).await? == 0 {
+        bail!("closed before any handshake");
+    }
     let version = SocksVersion::from(buf[0]);
     if matches!(version, SocksVersion::Socks5) {
         Ok(Proxy::Socks5)
@@ -85,7 +92,13 @@ async fn recognize(stream: &mut TcpStream) -> Result<Proxy, anyhow::Error> {
             match (req.parse(&buf[..len]), req.path, req.method) {
                 (_, Some(path), Some(method)) => return recognize_http(method, path),
                 // the request line is still arriving (it may be split across tcp segments): look again
-                (Ok(httparse::Status::Partial), _, _) if len < buf.len() => tokio::time::sleep(Duration::from_millis(5)).await,
+                (Ok(httparse::Status::Partial), _, _) if len < buf.len() => {
+                    // ... unless the application has gone: nothing more will arrive
+                    if read_closed(stream).await? {
+                        return Ok(Proxy::Unknown);
+                    }
+                    tokio::time::sleep(Duration::from_millis(5)).await
+                }
                 (_, None, Some(_)) => {
                     stream.write_all(b"HTTP/1.1 414 URI Too Long\r\n\r\n").await?;
                     stream.shutdown().await?;
